@@ -1094,7 +1094,9 @@ def _sqrt_scalar(x):
             return SFloat(x.u, Fraction(r, f.denominator))
     if x.u is True:
         return SFloat(True, 0)
-    xv = sg.normalise(zr(x.v))
+    # canonical quotient-of-polynomials form of the argument (equal to it wherever the
+    # value is defined, i.e. all divisors non-zero) so that equal arguments give equal terms
+    xv = sg.canon_rat(zr(x.v))
     s = _SQRT(xv)
     c = ctx()
     key = ("sqrt", xv.get_id())
@@ -1654,6 +1656,8 @@ def _forall_tensor(t):
     """raw bool: every element of t is truthy.  Symbolic extent -> Bool UF + axioms."""
     c = ctx()
     sh = t.rshape
+    if builtins_any(isinstance(d, int) and d == 0 for d in sh):
+        return True
     if builtins_all(isinstance(d, int) for d in sh):
         conds = []
         import itertools as _it
@@ -1936,7 +1940,33 @@ def convolve(v, w, mode="full"):
 class _Linalg:
     @staticmethod
     def matrix_rank(a):
-        raise OutOfReach("matrix_rank (assumed contract supplied by stub)")
+        """A-NP contract: 0 <= rank <= min(R, C);  rank < 2  <=>  all 2x2 minors vanish.
+        (exact-arithmetic reading; numpy's tolerance is not modelled)"""
+        t = _as_tensor_or_scalar(a)
+        if t is None or t.ndim != 2:
+            raise OutOfReach("matrix_rank of non-matrix")
+        c = ctx()
+        key = ("rank", id(t))
+        R, C = t.rshape
+        nm = c.fresh("rank")
+        r = z3.Int(nm)
+        c.fn_axioms.append(z3.And(r >= 0, r <= zi(R), r <= zi(C)))
+        i, i2, j, j2 = (z3.Int(nm + "_" + x) for x in ("i", "i2", "j", "j2"))
+        rng = z3.And(i >= 0, i < zi(R), i2 >= 0, i2 < zi(R), j >= 0, j < zi(C), j2 >= 0, j2 < zi(C))
+
+        def minor(a_, a2, b_, b2):
+            x = to_f(t._elem(a_, b_)).v
+            y = to_f(t._elem(a2, b2)).v
+            z = to_f(t._elem(a_, b2)).v
+            w = to_f(t._elem(a2, b_)).v
+            return zr(x) * zr(y) - zr(z) * zr(w)
+
+        c.fn_axioms.append(z3.ForAll([i, i2, j, j2], z3.Implies(z3.And(r < 2, rng), minor(i, i2, j, j2) == 0)))
+        wi, wi2, wj, wj2 = (z3.Int(nm + "_w" + x) for x in ("i", "i2", "j", "j2"))
+        wr = z3.And(wi >= 0, wi < zi(R), wi2 >= 0, wi2 < zi(R), wj >= 0, wj < zi(C), wj2 >= 0, wj2 < zi(C))
+        c.fn_axioms.append(z3.Implies(r >= 2, z3.And(wr, minor(wi, wi2, wj, wj2) != 0)))
+        c.__dict__.setdefault("ranks", []).append((t, r))
+        return sint(r)
 
 
 linalg = _Linalg()
